@@ -54,10 +54,10 @@ type Leaves struct {
 
 func AddLeaves(r *mrepo.Repo) Leaves {
 	return Leaves{
-		BlobA:      r.AddBlob([]byte("a")),                      // size 1
-		BlobB:      r.AddBlob([]byte("bbbbbbb")),                // size 7
-		BlobC:      r.AddBlob(make([]byte, 300)),                // size 300
-		LinkTarget: r.AddBlob([]byte("target/of/link")),         // a symlink's blob
+		BlobA:      r.AddBlob([]byte("a")),                               // size 1
+		BlobB:      r.AddBlob([]byte("bbbbbbb")),                         // size 7
+		BlobC:      r.AddBlob(make([]byte, 300)),                         // size 300
+		LinkTarget: r.AddBlob([]byte("target/of/link")),                  // a symlink's blob
 		Gitlink:    mrepo.ID("1234567890123456789012345678901234567890"), // never an object here
 	}
 }
@@ -238,9 +238,9 @@ type OrderSpace struct {
 	// CommitsUnordered: git-sizer did not ask rev-list for a topological
 	// order, so every permutation of the commits is a possible listing
 	CommitsUnordered bool
-	Trees   bool // all permutations
-	Tags    bool // all permutations
-	Blobs   bool // all permutations
+	Trees            bool // all permutations
+	Tags             bool // all permutations
+	Blobs            bool // all permutations
 	// Interleave: besides the kind-grouped listing also produce listings where
 	// kinds are interleaved (rotations of the non-commit part)
 	Max int // cap on the number of orders per scenario (0 = none)
